@@ -68,6 +68,14 @@ class CList:
 
 
 @dataclass(frozen=True)
+class GList:
+    """list whose existing content is opaque (symbolic length `prefix`, elements never inspected) and which the code only
+    appends to: the appended suffix is concrete.  Used for Circuit.__circuit_spec in the contracts of the builder methods."""
+    prefix: object
+    suffix: tuple = ()
+
+
+@dataclass(frozen=True)
 class ADict:
     """insertion ordered dict int -> scalar.
 
